@@ -48,6 +48,10 @@ class TlcResult:
                 self.violated.append(m.group(1))
             if line.startswith("Error: Temporal properties were violated"):
                 self.violated.append("<temporal>")
+            m = re.match(r"^Error: Temporal property (\S+) was violated", line)
+            if m:
+                self.violated.append("<temporal>")
+                self.violated.append(m.group(1))
             if line.startswith("Error:"):
                 self.error_lines.append(line)
             if "Model checking completed. No error has been found." in line:
@@ -133,6 +137,7 @@ def run(module, cfg, *, workers=16, env=None, timeout=1800, simulate=None, depth
 def require_clean(r, what):
     """Machinery guard: TLC must have finished normally (violations are handled by the caller)."""
     bad = [l for l in r.error_lines if not re.match(r"^Error: (Invariant|Action property) \S+ is violated", l)
+           and not re.match(r"^Error: Temporal property \S+ was violated", l)
            and "Temporal properties were violated" not in l and "The behavior up to this point" not in l
            and "The following behavior constitutes a counter-example" not in l]
     if bad or (r.rc not in (0, 12, 13) and not r.violated):
